@@ -360,6 +360,16 @@ type c10Out struct {
 	group string
 	val   string // rendered value
 	num   float64
+	inum  int64 // exact value of an int result (float64 cannot tell neighbours above 2^53 apart)
+	isInt bool
+}
+
+// c10Less orders results exactly: int results by their int64 value.
+func c10Less(a, b c10Out) bool {
+	if a.isInt && b.isInt {
+		return a.inum < b.inum
+	}
+	return a.num < b.num
 }
 
 func c10Render(dps []*measurev1.DataPoint, groupBy string) ([]c10Out, error) {
@@ -377,7 +387,7 @@ func c10Render(dps []*measurev1.DataPoint, groupBy string) ([]c10Out, error) {
 		}
 		switch v := dp.GetFields()[0].GetValue().GetValue().(type) {
 		case *modelv1.FieldValue_Int:
-			o.val, o.num = fmt.Sprintf("int:%d", v.Int.GetValue()), float64(v.Int.GetValue())
+			o.val, o.num, o.inum, o.isInt = fmt.Sprintf("int:%d", v.Int.GetValue()), float64(v.Int.GetValue()), v.Int.GetValue(), true
 		case *modelv1.FieldValue_Float:
 			o.val, o.num = fmt.Sprintf("float:%v", v.Float.GetValue()), v.Float.GetValue()
 		default:
@@ -445,7 +455,7 @@ func (c c10Plan) reference() map[string]c10Out {
 			default:
 				res = sum / int64(len(vs))
 			}
-			out[g] = c10Out{group: g, val: fmt.Sprintf("int:%d", res), num: float64(res)}
+			out[g] = c10Out{group: g, val: fmt.Sprintf("int:%d", res), num: float64(res), inum: res, isInt: true}
 		}
 	}
 	return out
@@ -479,30 +489,30 @@ func (c c10Plan) checkAgainst(got []c10Out, ref map[string]c10Out, who string) e
 	if len(got) != want {
 		return fmt.Errorf("%s: top-%d returned %d groups out of %d", who, c.TopN, len(got), len(ref))
 	}
-	var all []float64
+	var all []c10Out
 	for _, r := range ref {
-		all = append(all, r.num)
+		all = append(all, r)
 	}
-	sort.Float64s(all)
-	if c.TopDesc {
-		for i, j := 0, len(all)-1; i < j; i, j = i+1, j-1 {
-			all[i], all[j] = all[j], all[i]
-		}
-	}
-	var gv []float64
-	for _, g := range got {
-		gv = append(gv, g.num)
-	}
-	sorted := append([]float64(nil), gv...)
-	sort.Float64s(sorted)
-	if c.TopDesc {
-		for i, j := 0, len(sorted)-1; i < j; i, j = i+1, j-1 {
-			sorted[i], sorted[j] = sorted[j], sorted[i]
-		}
+	sorted := append([]c10Out(nil), got...)
+	for _, l := range [][]c10Out{all, sorted} {
+		l := l
+		sort.SliceStable(l, func(i, j int) bool {
+			if c.TopDesc {
+				return c10Less(l[j], l[i])
+			}
+			return c10Less(l[i], l[j])
+		})
 	}
 	for i := range sorted {
-		if sorted[i] != all[i] {
-			return fmt.Errorf("%s: top-%d (desc=%v) returned values %v, the %d best of all groups are %v", who, c.TopN, c.TopDesc, gv, want, all[:want])
+		if sorted[i].val != all[i].val {
+			var gv, best []string
+			for _, g := range got {
+				gv = append(gv, g.val)
+			}
+			for _, a := range all[:want] {
+				best = append(best, a.val)
+			}
+			return fmt.Errorf("%s: top-%d (desc=%v) returned values %v, the %d best of all groups are %v", who, c.TopN, c.TopDesc, gv, want, best)
 		}
 	}
 	return nil
